@@ -129,6 +129,11 @@ def seeded(case, ctx):
         # sequence seeds ("None, int or array_like": (run id, frame number) pairs with 64-bit run ids): entries that
         # differ only above bit 31, and the same pair as list / tuple / uint64 array
         seqs = [[s0, 5], [s0 + 2**32, 5], [s0, 5 + 2**33], (s0 + 2**40, 5), np.array([s0 + 2**48, 5], dtype=np.uint64), [5, s0]]
+        # entropy blocks of more than a thousand words (a 4 kB os.urandom read) that differ in ONE word in the middle
+        long_a = (np.arange(1100, dtype=np.uint64) * 2654435761 + s0) % 2**32
+        long_b = long_a.copy()
+        long_b[550] = long_b[550] + np.uint64(1)
+        seqs += [long_a, long_b]
         seen, uniq = set(), []
         for q in seqs:
             key = tuple(int(v) for v in q)
